@@ -6,8 +6,8 @@ from . import genrules, textrules, plumbing
 def run(chk):
     genrules.r01_dual(chk)
     genrules.r_eq(chk, rule_complete=None, rule_layout="R01-eq")
-    genrules.expansion_diffs(chk, "R01-shipped", lambda k: ("[stringify]" in k) or k.startswith("impl PartialEq") or "Display" in k,
-                             "generated stringify/PartialEq/Display items identical (canonical form) to the generator's output")
+    genrules.expansion_diffs(chk, "R01-shipped", lambda k: ("[stringify]" in k) or ("[parse]" in k) or k.startswith("impl PartialEq") or "Display" in k,
+                             "generated parse/stringify/PartialEq/Display items identical (canonical form) to the generator's output: the parser and the writer of one element are generated from the same DSL item, which is what makes them inverse to each other")
     textrules.r01_esc(chk)
     textrules.r01_fmt(chk)
     textrules.r01_hex(chk)
@@ -16,6 +16,8 @@ def run(chk):
     plumbing.r05_plumb(chk, rule="R01-plumb")
     from . import c05, writertab
     c05.r05_adjacent(chk, rule="R01-adjacent")
+    # a line offset taken from the wrong token is written as a different number of line breaks, which the next load measures again
+    c05.r05_token(chk, rule="R01-token")
     writertab.compare(chk, "R01-writer", floor=48)
     writertab.compare_ifdata(chk, "R01-ifdata-writer", floor=22)
     # the hand-written equality of IF_DATA trees: every comparison of two payloads is an equality (a `!=` in one arm makes equal
